@@ -522,6 +522,22 @@ pub fn c06_scenarios(tier: Tier) -> Vec<Scenario> {
         sc.prefill = ms.min(1);
         v.push(seq(&format!("close-histories/ms{}", ms), "close() at every position of every history of gets, polls, returns, takes, cancels and resize", if b.thorough { 2 } else { 1 }, sc));
     }
+    // the same with waiters that wait through the runtime's timeout wrapper
+    // (wait / create / recycle timeouts of one hour that never fire)
+    {
+        let mut c = PoolCfg::simple(1);
+        c.create_menu = vec![Out::Ok, Out::PendOk, Out::Err];
+        c.recycle_menu = vec![Out::Ok, Out::Err];
+        let mut sc = SeqScenario::new(c, if b.thorough { 7 } else { 5 }, base);
+        sc.close = true;
+        sc.max_tasks = 2;
+        sc.resize_targets = vec![0, 2];
+        sc.retain = false;
+        sc.prefill = 1;
+        sc.timeouts = true;
+        sc.gets_nonblocking = false;
+        v.push(seq("close-histories-with-timeouts/ms1", "close() at every position of histories whose gets wait, create and recycle under (never firing) timeouts: a queued waiter must see Closed, not Timeout", if b.thorough { 2 } else { 1 }, sc));
+    }
     if b.thorough {
         v.extend(generated(base, Some(("CLOSE", vec![Op::Close])), 2, 2, 1, false));
         v.extend(generated(base, Some(("CLOSE+GET", vec![Op::Close, get_nb(), Op::Status])), 2, 2, 0, false));
